@@ -4,7 +4,7 @@
 From RV Require Import Base.
 From RV.Model Require Import Utf8 Indexer CodePointSet Insn IR Optimizer Unfold Emit.
 From RV.Spec Require Import IRSem IRShape.
-From RV.Proofs Require Import NodeInd OptDD OptMono OptWalk OptRel OptDecat OptFails OptEmpties OptUnroll OptPromote OptBrackets.
+From RV.Proofs Require Import NodeInd OptDD OptMono OptWalk OptRel OptDecat OptFails OptEmpties OptUnroll OptPromote OptBrackets OptBytes.
 
 Section Top.
   Variable ix : indexer.
@@ -135,14 +135,20 @@ Section Top.
     eapply rres_trans; [apply top_up|]. eapply rres_trans; [exact Hr|apply top_down].
   Qed.
 
-  (* optimize() is the composition of its passes: given the soundness of the single rewrites of form_literal_bytes
-     (the one pass not proved), the optimized node refines the original one *)
-  Theorem optimize_sound_if :
-    (forall lb n a, form_literal_bytes lb n = Ok a -> PRel lb n (act_node a n)) ->
-    text_ok ->
+  (* ... and for the literal-bytes pass: the well-formed positions lie inside the text, and a scalar value read as an
+     element is its UTF-8 encoding read as bytes, whose end is a well-formed position (decoding and encoding are
+     inverse on well-formed UTF-8) *)
+  Definition text_enc : Prop :=
+    (forall q, okp q -> (q <= length h)%nat) /\
+    (forall fwd q c, okp q -> is_scalar c = true ->
+       match next_if ix fwd h q (N.eqb c) with Ok r => match_bytes fwd h q (utf8_encode c) = Ok r | Err _ => True end) /\
+    (forall fwd q c e, okp q -> is_scalar c = true -> match_bytes fwd h q (utf8_encode c) = Ok (Some e) -> okp e).
+
+  (* optimize() is the composition of its passes *)
+  Theorem optimize_sound : text_ok -> text_enc ->
     forall u16 n n', optimize u16 n = Ok n' -> PRel false n n'.
   Proof.
-    intros H4 (Hk1 & Hk5 & Hcp & Hb1 & Hb2 & Hstep) u16 n n' E. unfold optimize in E.
+    intros (Hk1 & Hk5 & Hcp & Hb1 & Hb2 & Hstep) (Hk0 & He1 & He2) u16 n n' E. unfold optimize in E.
     destruct (run_to_fixpoint simplify_brackets PASS_FUEL n) as [e|n0] eqn:E0; [discriminate|]. cbn [bindR] in E.
     destruct (run_to_fixpoint decat PASS_FUEL n0) as [e|n1] eqn:E1; [discriminate|]. cbn [bindR] in E.
     destruct (run_to_fixpoint unroll_loops PASS_FUEL n1) as [e|n2] eqn:E2; [discriminate|]. cbn [bindR] in E.
@@ -155,7 +161,8 @@ Section Top.
     eapply PRel_trans; [eapply unroll_pass_sound; exact E2|].
     eapply PRel_trans; [eapply promote_pass_sound; [exact Hstep|exact E3]|].
     eapply PRel_trans; [|eapply PRel_trans; [eapply empties_pass_sound; exact E5|eapply fails_pass_sound; [exact Hcp|exact E]]].
-    destruct u16; [inversion E4; subst; apply PRel_refl|eapply (pass_sound ix unicode utf16 h okp _ H4); exact E4].
+    destruct u16; [inversion E4; subst; apply PRel_refl|].
+    eapply literal_pass_sound; [exact Hk0|exact Hk1|exact Hb1|exact Hb2|exact He1|exact He2|exact E4].
   Qed.
 
   (* the utf16 build compiles form_literal_bytes out: there the whole of optimize() is covered *)
